@@ -68,7 +68,7 @@ func strs(m M, k string) []string {
 // dictionary
 
 // Topic names: one is a byte-prefix of another; t3 uses every allowed punctuation character.
-var topicDict = map[string]string{"t1": "a", "t2": "ab", "t3": "a.b-_9", "t4": "abc"}
+var topicDict = map[string]string{"t1": "a", "t2": "ab", "t3": "a.b-_9", "t4": "abc", "ts": "a/b"}
 
 // PNFT identifiers: prefix-related and separator-bearing ("/" is the genesis key separator of aol,
 // NUL is the x/nft store key delimiter).
